@@ -19,8 +19,9 @@ DV = [
 ]  # fmt: skip
 NONLIT = [("2**3", "int"), ("[]", "list[int]"), ("int()", "int"), ("_CONST", "int"), ("not 1", "int")]
 
-OWNERS = ["func", "method", "static", "classm", "ctor", "method_this", "static_self", "nested", "func_self"]
-HAS_RECEIVER = {"method": "self", "classm": "cls", "ctor": "self", "method_this": "this", "nested": "self"}
+OWNERS = ["func", "method", "static", "classm", "ctor", "method_this", "static_self", "nested", "func_self", "inherited"]
+HAS_RECEIVER = {"method": "self", "classm": "cls", "ctor": "self", "method_this": "this", "nested": "self", "inherited": "self"}
+N_HEIRS = 3  # public subclasses that show the method of one private superclass (owner "inherited")
 
 
 @dataclass(frozen=True)
@@ -89,6 +90,9 @@ def render_case(cid: int, owner: str, params: list[P]) -> str:
     deco = {"static": "    @staticmethod\n", "static_self": "    @staticmethod\n", "classm": "    @classmethod\n"}.get(owner, "")
     name = "__init__" if owner == "ctor" else f"f{cid}"
     meth = f"{deco}    def {name}({full}) -> None:\n{body}"
+    if owner == "inherited":
+        heirs = "".join(f"\n\nclass H{cid}x{k}(_B{cid}):\n    pass\n" for k in range(N_HEIRS))
+        return f"class _B{cid}:\n{meth}{heirs}"
     if owner == "nested":
         meth = "\n".join("    " + ln if ln else ln for ln in meth.split("\n"))
         return f"class C{cid}:\n    class N{cid}:\n{meth}"
@@ -131,7 +135,7 @@ def enumerate_cases(tier: str):
                 for owner in OWNERS:
                     if owner in ("static_self", "func_self") and not (kinds and kinds[0] in ("PO", "PK")):
                         continue
-                    if tier == "thorough" and n >= 5 and owner in ("method_this", "nested", "func_self"):
+                    if tier == "thorough" and n >= 5 and owner in ("method_this", "nested", "func_self", "inherited"):
                         continue
                     ps = make_params(kinds, defaults, annots, None, owner)
                     yield owner, ps, f"{owner}|{','.join(kinds)}|d{sorted(defaults)}|a{sorted(annots)}"
@@ -185,42 +189,50 @@ def judge_case(rep: Report, case: Case, idx, api, obs: Obs, files, opts) -> None
             files={f"{PKG}/__init__.py": "", f"{PKG}/m.py": "_CONST = 3\n\n\n" + case.src}, src_rel=PKG, opts=opts, obs=None,
         )
 
-    if decl is None or sparams is None:
-        rep.extra["not_emitted"] = rep.extra.get("not_emitted", 0) + 1
-    else:
-        exp = list(params)  # receiver is not part of `params`
-        if len(hits) > 1:
-            viol("emitted-once", "dup", {"hits": len(hits)})
-        if len(sparams) != len(exp):
-            viol("count", f"{len(exp)}->{len(sparams)}", {"expected": [p.name for p in exp]})
+    if owner == "inherited" and len(hits) != N_HEIRS:
+        viol("emitted-once", f"heirs:{N_HEIRS}->{len(hits)}", {"hits": len(hits)})
+    def judge_shown(decl) -> None:  # noqa: ANN001
+        nonlocal sparams
+        sparams = decl.params if decl is not None else None
+        if decl is None or sparams is None:
+            rep.extra["not_emitted"] = rep.extra.get("not_emitted", 0) + 1
         else:
-            rep.ok("count")
-            names_ok = all(sp.py_name == p.name for sp, p in zip(sparams, exp, strict=True))
-            if not names_ok:
-                viol("order-names", ",".join(p.kind for p in exp), {"expected": [p.name for p in exp]})
+            exp = list(params)  # receiver is not part of `params`
+            if len(hits) > 1 and owner != "inherited":
+                viol("emitted-once", "dup", {"hits": len(hits)})
+            if len(sparams) != len(exp):
+                viol("count", f"{len(exp)}->{len(sparams)}", {"expected": [p.name for p in exp]})
             else:
-                rep.ok("order-names")
-                for sp, p in zip(sparams, exp, strict=True):
-                    if p.default is not None and not p.literal:
-                        rep.ok("nonliteral-present")
-                        continue
-                    want_default = p.default is not None
-                    if (sp.default is not None) != want_default:
-                        viol("default-presence", f"{p.kind}:{'ann' if p.annot else 'raw'}:{p.default}", {"param": p.name, "stub_default": render_expr(sp.default) if sp.default else None})
-                        continue
-                    rep.ok("default-presence")
-                    if want_default:
-                        try:
-                            v = expr_value(sp.default)
-                            good = _same_value(v, p.value)
-                        except ValueError:
-                            v, good = render_expr(sp.default), False
-                        if good:
-                            rep.ok("default-value")
-                        else:
-                            viol("default-value", f"{p.default}", {"param": p.name, "expected": repr(p.value), "observed": repr(v)})
+                rep.ok("count")
+                names_ok = all(sp.py_name == p.name for sp, p in zip(sparams, exp, strict=True))
+                if not names_ok:
+                    viol("order-names", ",".join(p.kind for p in exp), {"expected": [p.name for p in exp]})
+                else:
+                    rep.ok("order-names")
+                    for sp, p in zip(sparams, exp, strict=True):
+                        if p.default is not None and not p.literal:
+                            rep.ok("nonliteral-present")
+                            continue
+                        want_default = p.default is not None
+                        if (sp.default is not None) != want_default:
+                            viol("default-presence", f"{p.kind}:{'ann' if p.annot else 'raw'}:{p.default}", {"param": p.name, "stub_default": render_expr(sp.default) if sp.default else None})
+                            continue
+                        rep.ok("default-presence")
+                        if want_default:
+                            try:
+                                v = expr_value(sp.default)
+                                good = _same_value(v, p.value)
+                            except ValueError:
+                                v, good = render_expr(sp.default), False
+                            if good:
+                                rep.ok("default-value")
+                            else:
+                                viol("default-value", f"{p.default}", {"param": p.name, "expected": repr(p.value), "observed": repr(v)})
+
+    for d in ([h[2] for h in hits] if owner == "inherited" else [decl]):
+        judge_shown(d)
     # ---- API JSON side
-    fid_suffix = {"ctor": f"/C{cid}/__init__", "nested": f"/C{cid}/N{cid}/f{cid}"}.get(owner)
+    fid_suffix = {"ctor": f"/C{cid}/__init__", "nested": f"/C{cid}/N{cid}/f{cid}", "inherited": f"/_B{cid}/f{cid}"}.get(owner)
     if fid_suffix is None:
         fid_suffix = f"/f{cid}" if owner in ("func", "func_self") else f"/C{cid}/f{cid}"
     fentry = next((e for fid, e in api.get("functions", {}).items() if fid.endswith(fid_suffix)), None)
@@ -262,8 +274,8 @@ def run(rep: Report, tier: str, seed: int) -> None:
     for i, (owner, params, label) in enumerate(enumerate_cases(tier)):
         cases.append(Case(i, render_case(i, owner, params), (owner, params), (), label))
     rep.rule = (
-        "all Python-legal parameter-kind sequences of total length <= %d x legal default-presence patterns x annotation patterns x 9 owner kinds"
-        " (function, method, static, class method, constructor, receiver named 'this', static with first parameter 'self', nested-class method,"
+        "all Python-legal parameter-kind sequences of total length <= %d x legal default-presence patterns x annotation patterns x 10 owner kinds"
+        " (method of a private superclass shown in 3 public subclasses, function, method, static, class method, constructor, receiver named 'this', static with first parameter 'self', nested-class method,"
         " module function with parameter 'self'); every default letter (14 literals + 5 non-literals) in every position of 1-2 parameter signatures;"
         " distinct = distinct case label (all labels are distinct, all cases have >=0 parameters and an emitted declaration)" % (3 if tier == "quick" else 5)
     )
